@@ -25,7 +25,7 @@ ASSUMPTIONS = [
     'the value order (ties depend on storage order)',
 ]
 ANCHORS = ['Table.transform', 'Table.norm', 'Table.pa', 'Table.rankdata', '_normalize_table']
-REQUIRED = ['second_transform_on_result', 'norm_with_repeated_ids', 'norm_signed_positive_total_vectors', 'tap_calls_checked', 'op_transform', 'op_norm', 'op_pa',
+REQUIRED = ['function_reads_the_table', 'second_transform_on_result', 'norm_with_repeated_ids', 'norm_signed_positive_total_vectors', 'tap_calls_checked', 'op_transform', 'op_norm', 'op_pa',
             'op_rankdata', 'cli_runs', 'axis_agreement_checked',
             'layout_csc_seen', 'layout_unsorted_seen', 'zero_cells_checked']
 
@@ -202,9 +202,31 @@ def run_case(ctx, index):
         desc['f'] = fname
         log = []
 
+        # a fifth of the functions look something up in the table they are
+        # transforming (reading only: a vector of the other axis, a sum, the
+        # vector's own row once more): what they are given and what becomes
+        # of their answer is the same
+        reads = None
+        other_ax = 'observation' if axis == 'sample' else 'sample'
+        if r.random() < .2 and spec.ids(other_ax):
+            reads = r.choice(['other-axis-vector', 'other-axis-sum',
+                              'same-axis-vector', 'cell'])
+            desc['function_reads_the_table'] = reads
+            ctx.count('function_reads_the_table')
+        oid0 = spec.ids(other_ax)[0] if spec.ids(other_ax) else None
+
         def tap(v, i, m):
             log.append((np.array(v, dtype=float, copy=True), str(i),
                         None if m is None else dict(m)))
+            if reads == 'other-axis-vector':
+                t.data(oid0, axis=other_ax, dense=True)
+            elif reads == 'other-axis-sum':
+                t.sum(axis=other_ax)
+            elif reads == 'same-axis-vector':
+                t.data(i, axis=axis, dense=False)
+            elif reads == 'cell':
+                t.get_value_by_ids(*((i, oid0) if axis == 'observation'
+                                     else (oid0, i)))
             return f(v, i, m)
         res = t.transform(tap, axis=axis, inplace=inplace)
         ctx.count('op_transform')
